@@ -252,6 +252,10 @@ func ruleRegOverwrite(c *Ctx) {
 			continue
 		}
 		key := fnKey(fn) + "/store"
+		if decided, good, why := regOverwriteByFold(P, fn); decided {
+			c.Check(good, key, P.pos(fn.Pos()), "folded: on every way out exactly one store registry[typ] = value, with the function's own arguments, into a package-level map keyed by reflect.Type", why)
+			continue
+		}
 		var mu *ssa.MapUpdate
 		n := 0
 		for _, b := range fn.Blocks {
@@ -277,6 +281,49 @@ func ruleRegOverwrite(c *Ctx) {
 		}
 		c.Check(ok, key, P.pos(fn.Pos()), "one unconditional map store registry[typ] = value on every path", "the registration is conditional or does not store the parameters under the type key")
 	}
+}
+
+// regOverwriteByFold folds a registration function on two named unknown arguments: every way out that does not
+// panic has made exactly one store into a map the fold does not hold (package state) whose key type is
+// reflect.Type, under the first argument, of the second argument. Helpers and methods of a registry type are
+// folded through.
+func regOverwriteByFold(P *Program, fn *ssa.Function) (decided, good bool, why string) {
+	if len(fn.Params) != 2 {
+		return false, false, ""
+	}
+	a0, a1 := cpUnk{ID: "arg:" + fn.Params[0].Name()}, cpUnk{ID: "arg:" + fn.Params[1].Name()}
+	outs, _, ok, _ := cpFoldOpt(P, fn, []cpVal{a0, a1}, func(g *ssa.Function) bool { return !P.isModuleFunc(g) })
+	if !ok || len(outs) == 0 {
+		return false, false, ""
+	}
+	good = true
+	for _, o := range outs {
+		if o.Panics {
+			continue
+		}
+		n := 0
+		for _, cl := range o.Calls {
+			if cl.Callee != "mapupdate" {
+				continue
+			}
+			mt, isMap := cl.MapT.Underlying().(*types.Map)
+			if !isMap || !isReflectType(mt.Key()) {
+				continue
+			}
+			n++
+			if k, isU := cl.Args[1].(cpUnk); !isU || k.ID != a0.ID {
+				good, why = false, "the registration is not stored under the type it was made for"
+			}
+			v := stripIfaceVal(cl.Args[2])
+			if u, isU := v.(cpUnk); !isU || u.ID != a1.ID {
+				good, why = false, "what is stored is not the value passed to the registration"
+			}
+		}
+		if n != 1 {
+			good, why = false, fmt.Sprintf("a way out of the registration makes %d stores into the registry: the registration is conditional (an earlier one may win) or repeated", n)
+		}
+	}
+	return true, good, why
 }
 
 func ruleBTReg(c *Ctx) {
@@ -668,13 +715,27 @@ func sgRegByFold(P *Program) (folded, good bool, why string) {
 	if root == nil || schemaRegistryKey == "" {
 		return false, false, ""
 	}
-	isRegistry := func(v cpVal) bool {
+	isRegistryV := func(v cpVal) bool {
 		u, ok := v.(cpUnk)
 		return ok && strings.HasPrefix(u.ID, "*global:") && strings.HasSuffix(u.ID, "."+strings.SplitN(schemaRegistryKey, ".", 2)[1])
+	}
+	// the schema registry: the package-level map of that name, or — when the registry is kept in a struct with
+	// its lock — any map from reflect.Type to Schema whose content the fold does not know (it is package state)
+	isRegistry := func(cl cpCall) bool {
+		if isRegistryV(cl.Args[0]) {
+			return true
+		}
+		if _, unk := cl.Args[0].(cpUnk); !unk || cl.MapT == nil {
+			return false
+		}
+		mt, ok := cl.MapT.Underlying().(*types.Map)
+		return ok && isReflectType(mt.Key()) && typeKey(mt.Elem()) == "avro.Schema"
 	}
 	inner := cpRTypeOfKind(reflect.Int64, false)
 	strct := cpRTypeOfKind(reflect.Struct, false)
 	strct.Fields = []cpRField{{Name: "F", Tag: `json:"f"`, Type: inner}}
+	level := cpRTypeOfKind(reflect.Uint8, false)
+	level.ID, level.Name, level.PkgPath = "fx.Level", "Level", "example.com/fx-pkg"
 	cases := []struct {
 		name string
 		rt   *cpRType
@@ -687,6 +748,8 @@ func sgRegByFold(P *Program) (folded, good bool, why string) {
 		{"struct{F int64}", strct, inner},
 		{"map[string]struct{F int64}", &cpRType{ID: "map[string]fx.Rec", Kind: int64(reflect.Map), Elem: strct, Key: cpRTypeOfKind(reflect.String, false), Size: 8}, strct},
 		{"[]struct{F int64}", &cpRType{ID: "[]fx.Rec", Kind: int64(reflect.Slice), Elem: strct, Size: 24}, strct},
+		// a map's values are not bytes whatever their kind: a registered one-byte type as a map value is looked up
+		{"map[string]Level (a named uint8 type)", &cpRType{ID: "map[string]fx.Level", Kind: int64(reflect.Map), Elem: level, Key: cpRTypeOfKind(reflect.String, false), Size: 8}, level},
 	}
 	good = true
 	for _, k := range cases {
@@ -705,7 +768,7 @@ func sgRegByFold(P *Program) (folded, good bool, why string) {
 					looks = append(looks, cl)
 				}
 			}
-			if len(looks) == 0 || !isRegistry(looks[0].Args[0]) || looks[0].Args[1] != cpVal(k.rt) {
+			if len(looks) == 0 || !isRegistry(looks[0]) || looks[0].Args[1] != cpVal(k.rt) {
 				good, why = false, fmt.Sprintf("for a type like %s the schema registry is not the first thing consulted with the type itself", k.name)
 				continue
 			}
@@ -728,7 +791,7 @@ func sgRegByFold(P *Program) (folded, good bool, why string) {
 				if _, errNil := o.Results[1].(cpNil); errNil {
 					subLooked := false
 					for _, l := range looks[1:] {
-						if isRegistry(l.Args[0]) && l.Args[1] == cpVal(k.sub) {
+						if isRegistry(l) && l.Args[1] == cpVal(k.sub) {
 							subLooked = true
 						}
 					}
@@ -797,7 +860,7 @@ func sgRegByFold(P *Program) (folded, good bool, why string) {
 				var look *cpCall
 				first := true
 				for i, cl := range o.Calls {
-					if cl.Callee != "maplookup" || !isRegistry(cl.Args[0]) {
+					if cl.Callee != "maplookup" || !isRegistry(cl) {
 						continue
 					}
 					if first {
@@ -880,7 +943,7 @@ func sgRegByFold(P *Program) (folded, good bool, why string) {
 			}
 			var looks []cpCall
 			for _, cl := range o.Calls {
-				if cl.Callee == "maplookup" && isRegistry(cl.Args[0]) {
+				if cl.Callee == "maplookup" && isRegistry(cl) {
 					looks = append(looks, cl)
 				}
 			}
@@ -929,6 +992,31 @@ func sgRegByFold(P *Program) (folded, good bool, why string) {
 	return true, good, why
 }
 
+// isCodecRegistryLookup: the recorded map lookup consults the codec registry: the package-level map of that role,
+// or — when the registry is kept in a struct with its lock — a map from reflect.Type to codec builders whose
+// content the fold does not know (package state).
+func isCodecRegistryLookup(P *Program, cl *cpCall) bool {
+	if cl == nil || len(cl.Args) < 2 {
+		return false
+	}
+	u, ok := cl.Args[0].(cpUnk)
+	if !ok {
+		return false
+	}
+	if registryKey != "" && strings.HasPrefix(u.ID, "*global:") && strings.HasSuffix(u.ID, "."+strings.SplitN(registryKey, ".", 2)[1]) {
+		return true
+	}
+	if cl.MapT == nil {
+		return false
+	}
+	mt, isMap := cl.MapT.Underlying().(*types.Map)
+	if !isMap || !isReflectType(mt.Key()) {
+		return false
+	}
+	sig, isSig := mt.Elem().Underlying().(*types.Signature)
+	return isSig && isCodecErrorSig(P, sig)
+}
+
 // btRegByFold decides BT-REG's dispatch clauses by folding the dispatcher
 // (E-CP) for every schema type and a few Go types: in every outcome that
 // builds a codec the codec registry has been asked about the Go type itself
@@ -965,10 +1053,7 @@ func btRegByFold(c *Ctx, root *ssa.Function) bool {
 		return cpStructOf(schemaT, f)
 	}
 	long := sch("long", nil, nil)
-	isRegistry := func(v cpVal) bool {
-		u, ok := v.(cpUnk)
-		return ok && strings.HasPrefix(u.ID, "*global:") && strings.HasSuffix(u.ID, "."+strings.SplitN(registryKey, ".", 2)[1])
-	}
+	isRegistry := func(cl *cpCall) bool { return isCodecRegistryLookup(P, cl) }
 	i64 := cpRTypeOfKind(reflect.Int64, false)
 	type kase struct {
 		st    string
@@ -1028,7 +1113,7 @@ func btRegByFold(c *Ctx, root *ssa.Function) bool {
 			var first *cpCall
 			for i := range o.Calls {
 				cl := &o.Calls[i]
-				if cl.Callee == "maplookup" && isRegistry(cl.Args[0]) {
+				if cl.Callee == "maplookup" && isRegistry(cl) {
 					if rt, isRT := cl.Args[1].(*cpRType); isRT {
 						keys[rt] = true
 						if first == nil && rt == asked {
